@@ -62,7 +62,8 @@ FINGERPRINTED = {
     "C10": [("odetoolbox/system_of_shapes.py", "SystemOfShapes", "get_jacobian_matrix"), ("odetoolbox/mixed_integrator.py", "MixedIntegrator", "numerical_jacobian")],
     "C11": [("odetoolbox/singularity_detection.py", "SingularityDetection")],
     "C12": [("odetoolbox/analytic_integrator.py", "AnalyticIntegrator", "get_value"), ("odetoolbox/analytic_integrator.py", "AnalyticIntegrator", "reset"), ("odetoolbox/integrator.py", "Integrator", "set_spike_times")],
-    "C13": [("odetoolbox/mixed_integrator.py", "MixedIntegrator", "integrate_ode"), ("odetoolbox/mixed_integrator.py", "MixedIntegrator", "step")],
+    "C13": [("odetoolbox/mixed_integrator.py", "MixedIntegrator", "integrate_ode"), ("odetoolbox/mixed_integrator.py", "MixedIntegrator", "step"),
+            ("odetoolbox/integrator.py", "Integrator", "set_spike_times")],
     "C14": [("odetoolbox/stiffness.py", "StiffnessTester", "_draw_decision"), ("odetoolbox/stiffness.py", "StiffnessTester", "_evaluate_integrator"), ("odetoolbox/stiffness.py", "StiffnessTester", "check_stiffness")],
     "C15": [("odetoolbox/spike_generator.py", "SpikeGenerator")],
     "C16": [("ode_analyzer.py",)],
@@ -397,12 +398,14 @@ def translate_group(gname):
     return "\n".join(out), info
 
 
-def regenerate_all(outdir):
+def regenerate_all(outdir, only=None):
     os.makedirs(outdir, exist_ok=True)
     res = {"changed": [], "errors": {}, "info": {}}
     from . import specs as _specs
     jobs = [("DrawDecision", translate_draw_decision), ("Constants", translate_constants), ("CliTable", translate_cli)]
     jobs += [(g, (lambda g=g: translate_group(g))) for g in _specs.GROUPS]
+    if only:
+        jobs = [j for j in jobs if j[0] in only]
     for name, fn in jobs:
         try:
             content, info = fn()
@@ -425,5 +428,7 @@ def regenerate_all(outdir):
 if __name__ == "__main__":
     import json
     import sys
-    out = sys.argv[1] if len(sys.argv) > 1 else os.path.join(os.path.dirname(__file__), "..", "..", "lean", "OdeVerif", "Generated")
-    print(json.dumps(regenerate_all(out), indent=1, default=str))
+    args = [a for a in sys.argv[1:] if not a.startswith("--only=")]
+    only = [a.split("=", 1)[1].split(",") for a in sys.argv[1:] if a.startswith("--only=")]
+    out = args[0] if args else os.path.join(os.path.dirname(__file__), "..", "..", "lean", "OdeVerif", "Generated")
+    print(json.dumps(regenerate_all(out, only[0] if only else None), indent=1, default=str))
